@@ -197,9 +197,9 @@ def runStep (s : RunSt) (line : String) : RunSt × String :=
     | some _ =>
       match reqStepH s.store s.acc name with
       | none => (s, "err:not-request-action")
-      | some (st, acc) =>
-        match acc.get st with
-        | some a => ({ s with store := st, acc := acc }, s!"act {fmtReq a} {fmtEnc (encodeReq a)}")
+      | some acc =>
+        match acc.get s.store with
+        | some a => ({ s with acc := acc }, s!"act {fmtReq a} {fmtEnc (encodeReq a)}")
         | none => (s, "err:model-dangling-accumulator")
   | ["rs", name] =>
     match s.store.lookup name with
@@ -217,9 +217,9 @@ def runStep (s : RunSt) (line : String) : RunSt × String :=
     | some e => (s, e)
     | none =>
       match foldReqH s.store (.val .noop) names with
-      | some (st, acc) =>
-        match acc.get st with
-        | some a => ({ s with store := st }, fmtEnc (encodeReq a))
+      | some acc =>
+        match acc.get s.store with
+        | some a => (s, fmtEnc (encodeReq a))
         | none => (s, "err:model-dangling-accumulator")
       | none => (s, "err:model-fold-failed")
   | "respsite" :: names =>
@@ -323,28 +323,26 @@ def judgeStep (s : JudgeSt) (op out : String) : JudgeSt :=
   | _ => s
 
 def explain : Obs × List String → Option String
-  | (.req ins out enc, names) =>
+  | (.req ins out enc, _) =>
     if !reqFoldOk ins out then
-      some s!"{if f07bClass names then "F07b" else "-"} request-fold-rule-violated step={ins.length} out={pctEnc (fmtReq out)}"
+      some s!"- request-fold-rule-violated step={ins.length} out={pctEnc (fmtReq out)}"
     else if !reqEncOk out enc then
-      some s!"{if f07aClass out.hdrs then "F07a" else "-"} request-encoding-does-not-carry-the-action step={ins.length} out={pctEnc (fmtReq out)}"
+      some s!"- request-encoding-does-not-carry-the-action step={ins.length} out={pctEnc (fmtReq out)}"
     else none
   | (.resp ins prev out enc, _) =>
     if !respFoldOk ins prev out then
       some s!"- response-fold-rule-violated step={ins.length} out={pctEnc (fmtResp out)}"
     else if !respEncOk out enc then
-      some s!"{if f07aClass out.hdrs then "F07a" else "-"} response-encoding-does-not-carry-the-action step={ins.length} out={pctEnc (fmtResp out)}"
+      some s!"- response-encoding-does-not-carry-the-action step={ins.length} out={pctEnc (fmtResp out)}"
     else none
-  | (.reqSite ins enc, names) =>
+  | (.reqSite ins enc, _) =>
     if reqSiteHolds ins enc then none
     else
-      let fid := if f07bClass names then "F07b" else if f07aClass (ins.flatMap (·.hdrs)) then "F07a" else "-"
-      some s!"{fid} request-fold-site-variables-violate-the-rule n={ins.length} enc={pctEnc (fmtEnc enc)}"
+      some s!"- request-fold-site-variables-violate-the-rule n={ins.length} enc={pctEnc (fmtEnc enc)}"
   | (.respSite ins enc, _) =>
     if respSiteHolds ins enc then none
     else
-      let fid := if f07aClass (ins.flatMap (·.hdrs)) then "F07a" else "-"
-      some s!"{fid} response-fold-site-variables-violate-the-rule n={ins.length} enc={pctEnc (fmtEnc enc)}"
+      some s!"- response-fold-site-variables-violate-the-rule n={ins.length} enc={pctEnc (fmtEnc enc)}"
 
 def judgeFinish (s : JudgeSt) : String :=
   match s.bad with
